@@ -28,7 +28,9 @@ PROPS = {
         "module": "core", "pkg": "./checks", "level": "exploration",
         "jobs": [
             {"test": "TestC02R", "quick": 30000, "thorough": 2000000, "shards_thorough": 14},
+            {"test": "FuzzC02R", "fuzz": "FuzzC02R", "tiers": ["thorough"], "fuzztime": 40},
             {"test": "TestC02S", "quick": 2500, "thorough": 300000, "shards_thorough": 14},
+            {"test": "FuzzC02S", "fuzz": "FuzzC02S", "tiers": ["thorough"], "fuzztime": 40},
         ],
         "rule": "Level S: the real orchestrator (LoudScheme/SilentScheme, KeyGen and Sign) with the recorder backend, N in 3..5 participants of which 1..N-2 are "
                 "Byzantine puppets (honest for the synchronisation phases; their own MPC frames optionally muted per victim), 0..2 configured "
@@ -46,7 +48,9 @@ PROPS = {
         "module": "core", "pkg": "./checks", "level": "exploration",
         "jobs": [
             {"test": "TestC03R", "quick": 30000, "thorough": 2000000, "shards_thorough": 14},
+            {"test": "FuzzC03R", "fuzz": "FuzzC03R", "tiers": ["thorough"], "fuzztime": 40},
             {"test": "TestC03S", "quick": 2500, "thorough": 300000, "shards_thorough": 14},
+            {"test": "FuzzC03S", "fuzz": "FuzzC03S", "tiers": ["thorough"], "fuzztime": 40},
             {"test": "TestC06", "quick": 600, "thorough": 60000, "shards_thorough": 14},
         ],
         "rule": "Same generated runs as C02 (Level R and Level S). Oracle: every broadcast hand-off is non-nil, attributed to a participant, equals a payload that "
@@ -61,7 +65,9 @@ PROPS = {
         "module": "core", "pkg": "./checks", "level": "exploration",
         "jobs": [
             {"test": "TestC04R", "quick": 30000, "thorough": 2000000, "shards_thorough": 14},
+            {"test": "FuzzC04R", "fuzz": "FuzzC04R", "tiers": ["thorough"], "fuzztime": 40},
             {"test": "TestC04S", "quick": 2500, "thorough": 300000, "shards_thorough": 14},
+            {"test": "FuzzC04S", "fuzz": "FuzzC04S", "tiers": ["thorough"], "fuzztime": 40},
         ],
         "rule": "Level R, all honest, N in 2..5, up to 9 sends (broadcasts in rounds 1..3 by several senders, point-to-point), weighted delivery "
                 "schedule run to quiescence. Oracle: every broadcast handed exactly once to every other party, every point-to-point message exactly "
@@ -100,6 +106,7 @@ PROPS = {
         "module": "core", "pkg": "./checks", "level": "exploration",
         "jobs": [
             {"test": "TestC05B", "quick": 500, "thorough": 150000, "shards_thorough": 14},
+            {"test": "FuzzC05B", "fuzz": "FuzzC05B", "tiers": ["thorough"], "fuzztime": 40},
             {"test": "TestC05S", "quick": 600, "thorough": 200000, "shards_thorough": 14},
         ],
         "rule": "Level B: real bls.TBLS / ps.TPS backends driven through Init/OnMsg/KeyGen over the simulated network with an ideal broadcast; one "
@@ -122,8 +129,11 @@ PROPS = {
         "jobs": [
             {"test": "TestC10Hostile", "quick": 1, "thorough": 1, "shards_thorough": 14},
             {"test": "TestC10Loud", "quick": 800, "thorough": 100000, "shards_thorough": 14},
+            {"test": "FuzzC10Loud", "fuzz": "FuzzC10Loud", "tiers": ["thorough"], "fuzztime": 60},
             {"test": "TestC10Silent", "quick": 800, "thorough": 100000, "shards_thorough": 14},
+            {"test": "FuzzC10Silent", "fuzz": "FuzzC10Silent", "tiers": ["thorough"], "fuzztime": 60},
             {"test": "TestC10Crypto", "quick": 6000, "thorough": 1000000, "shards_thorough": 14},
+            {"test": "FuzzC10Crypto", "fuzz": "FuzzC10Crypto", "tiers": ["thorough"], "fuzztime": 60},
             {"test": "TestC05B", "quick": 300, "thorough": 6000, "shards_thorough": 14},
             {"test": "TestC03R", "quick": 10000, "thorough": 200000, "shards_thorough": 14},
             {"test": "TestC10Adapters", "module": "binance", "pkg": "./checks", "quick": 50, "thorough": 1600, "shards_thorough": 8},
@@ -150,6 +160,7 @@ PROPS = {
         "jobs": [
             {"test": "TestC07Honest", "quick": 700, "thorough": 80000, "shards_thorough": 14},
             {"test": "TestC07Byz", "quick": 1100, "thorough": 80000, "shards_thorough": 14},
+            {"test": "FuzzC07Byz", "fuzz": "FuzzC07Byz", "tiers": ["thorough"], "fuzztime": 40},
         ],
         "rule": "disc.Member instances on the simulated network under virtual time: universe of 2..8 configured members with identifiers over the "
                 "full 16-bit range (boundary-biased), honest participant subset, expected count (>= 2), 1..3 topics in parallel on one Member, probe "
@@ -202,13 +213,16 @@ PROPS = {
         "module": "core", "pkg": "./checks", "level": "exploration",
         "jobs": [
             {"test": "TestC08", "quick": 300, "thorough": 36000, "shards_thorough": 14},
+            {"test": "TestC08OwnPins", "module": "psown", "pkg": "./checks", "quick": 40, "thorough": 1500, "shards_thorough": 8},
         ],
         "rule": "rapid draws L in 1..4, a message vector (arbitrary byte strings incl. empty, equal entries, 1 KiB), n in 2..4 (thorough 5), t in 2..n, "
                 "a delivery schedule for the backend-level DKG and the order in which signer subsets are handed to the prover (ascending, descending, "
                 "rotated). Oracle: every KeyGen succeeds; every party reloads its output and reports byte-identical public material; every party signs "
                 "the blinded request; every partial signature unblinds to a witness valid under that signer's published key; for EVERY subset of size "
                 ">= t the proof of knowledge verifies under the threshold key. Every case is non-trivial by construction (generated vector, all "
-                "subsets); distinct = hash of the whole case.",
+                "subsets); distinct = hash of the whole case. TestC08OwnPins (harness module psown, which requires exactly the IBM/mathlib version of "
+                "mpc/ps/go.mod instead of the newer one that linking bls pulls in): the same chain - KeyGen, reload, identical public material, sign, "
+                "unblind, prove, verify for a drawn t-subset - over directly wired parties with n in 2..9 (thorough 12); non-trivial there = n >= 6.",
         "assumptions": COMMON_ASSUME + ["party identifiers 1..n (all callers; the prover uses the identifier as evaluation point)"],
     },
     "C09": {
@@ -233,6 +247,7 @@ PROPS = {
         "module": "core", "pkg": "./checks", "level": "exploration",
         "jobs": [
             {"test": "TestC06", "quick": 1500, "thorough": 600000, "shards_thorough": 14},
+            {"test": "FuzzC06", "fuzz": "FuzzC06", "tiers": ["thorough"], "fuzztime": 40},
         ],
         "rule": "Full stack with spy backends: universe of 3..7 nodes with distinct 16-bit node identifiers (boundary-biased), party identifiers with "
                 "generated collisions (1..3 replicas per party; identity maps <= 20%), participants = one replica per chosen party (valid) or two "
@@ -247,6 +262,7 @@ PROPS = {
         "module": "core", "pkg": "./checks", "level": "exploration",
         "jobs": [
             {"test": "TestC12", "quick": 700, "thorough": 200000, "shards_thorough": 14},
+            {"test": "FuzzC12", "fuzz": "FuzzC12", "tiers": ["thorough"], "fuzztime": 40},
         ],
         "rule": "Stateful, model-based: rapid draws a list of 2..8 operations on one cluster of 3..4 nodes (+ a configured outsider and an unknown "
                 "node), loud or silent: KeyGen by all / all but one, Sign(topic in {t0,t1}) complete / one signer missing / cancelled after k "
@@ -286,6 +302,7 @@ PROPS = {
         "module": "core", "pkg": "./checks", "level": "exploration",
         "jobs": [
             {"test": "TestC15", "quick": 6000, "thorough": 150000, "shards_thorough": 14},
+            {"test": "FuzzC15", "fuzz": "FuzzC15", "tiers": ["thorough"], "fuzztime": 40},
         ],
         "rule": "Stateful against a reference model: msg.Box with MaxInFlightTopicsBySender in 2..4, GCExpire of 2..4 sweeps, hand-fed epoch ticker "
                 "and the bubble's virtual wall clock; rapid draws sequences of up to 60 (thorough 400) operations: receive bursts (1..103 messages, "
